@@ -12,6 +12,7 @@ verus! {
 //@include prelude/io.rs
 //@include prelude/chan.rs
 //@include prelude/alloc.rs
+//@include prelude/option.rs
 
 pub assume_specification<T>[ std::sync::mpsc::channel::<T> ]() -> (r: (Sender<T>, Receiver<T>))
     ensures tx_chan(&r.0) == rx_chan(&r.1);
@@ -70,9 +71,6 @@ pub assume_specification<T>[ Sender::<T>::send ](s: &Sender<T>, t: T) -> (r: Res
             self.size == old(self).size,
             !self.reader.failed() && old(self).reader.stream().len() >= self.size ==>
                 self.reader.stream() == old(self).reader.stream().skip((self.size - remaining_to_read) as int),
-        ensures
-            !self.reader.failed() && old(self).reader.stream().len() >= self.size ==>
-                self.reader.stream() == old(self).reader.stream().skip(self.size as int),
         decreases remaining_to_read,
 //@endfn
 //@endimpl
@@ -103,8 +101,6 @@ pub assume_specification<T>[ Sender::<T>::send ](s: &Sender<T>, t: T) -> (r: Res
 // chan_val(c): the reader that is (or will be) transferred on the single-use channel c -- a prophecy variable.
 // A-CHAN: each of these channels carries exactly one reader: the one its sender's owner sends when it is dropped.
 pub uninterp spec fn chan_val<R>(c: int) -> R;
-pub assume_specification<T>[ core::mem::replace::<T> ](dest: &mut T, src: T) -> (r: T)
-    ensures r == *old(dest), *final(dest) == src;
 pub assume_specification<T>[ Receiver::<T>::recv ](s: &Receiver<T>) -> (r: Result<T, std::sync::mpsc::RecvError>)
     ensures r is Ok, r->Ok_0 == chan_val::<T>(rx_chan(s));
 
@@ -188,8 +184,6 @@ impl<R: Read + Send> SequentialReaderBuilder<R> {
         old(self).inner() is Some ==> final(self).inner() is Some
             && (final(self).inner()->Some_0.failed() || final(self).inner()->Some_0.stream().len() == 0),
         old(self).inner() is None ==> final(self).inner() is None,
-//@loop 1
-                ensures (*r).failed() || (*r).stream().len() == 0,
 //@endfn
 //@endimpl
 
